@@ -7,7 +7,10 @@ CONST_GROUPS = ["security", "message", "cipher", "license"]
 RULE = ("one case = one broker session (default matcher): several named clients subscribing, unsubscribing, disconnecting and "
         "issuing presence requests (status and/or changes=true/false, on exact and parent channels, with keys with and without "
         "the presence permission); the status lists and the subscribe / unsubscribe notifications every watcher receives are "
-        "compared after every request. non-trivial = distinct (op, answer)")
+        "compared after every request; burst sessions: 1-8 connections send 130-400 SUBSCRIBE/UNSUBSCRIBE pairs each, back to back and all "
+        "at once, over buffered (TCP-like) or synchronous pipes, with a slow watcher or with only 3-6 processors, so that the presence "
+        "queue (capacity 100) runs full: every watcher must see every transition once and in its connection's order (notifications "
+        "are grouped per source connection for the comparison). non-trivial = distinct (op, answer)")
 TRUSTED = ["the presence notification queue is drained before the next request (sequential histories); notification payloads are compared after dropping the timestamp",
            "cluster-wide presence (survey of other brokers) is empty: single broker"]
 ASSUMPTIONS = ["share groups are excluded (membership of a lookup is random by design)", "checked with the default (emitter) matcher; under the mqtt matcher notifications are matched with the same-depth rule (documented in DESIGN.md)"]
@@ -69,8 +72,40 @@ def session(rng):
     return s.ops
 
 
+def burst_session(rng):
+    """several connections flap on the watched channel at the same time while the presence queue (capacity 100,
+    one dispatcher) runs full; every transition must still be reported, in the order its connection made it"""
+    s = Session(rng, mode="emitter")
+    s.key("KA", R | W | P)
+    # buffered transport: the broker's writes return at once (a TCP socket with room in its buffer), so a
+    # connection's read loop reaches its next packet without waiting for the client to read the reply
+    buffered = rng.randrange(6) != 0
+    if buffered:
+        s.ops.append("transport buffered")
+    s.conn("w1")
+    if rng.randrange(2):
+        s.conn("w2")
+    k = rng.choice([1, 4, 6, 6, 8])
+    for i in range(k):
+        s.conn("c%d" % (i + 1), user=rng.choice([b"", b"alice", b"bob%d" % i]))
+    ch = chan(rng, depth=rng.choice([1, 2]))
+    for w in [x for x in s.clients if x.startswith("w")]:
+        s.presence(w, "KA", ch, status=False, changes=True)
+    n = rng.choice([130, 300, 400, 400])
+    # schedule variation: 0 = as is, 1 = the watcher stops reading until the queue is saturated (synchronous pipes only),
+    # pN = only N processors while the burst runs (goroutines the broker starts wait in a run queue)
+    mode = "1" if not buffered and (k == 1 or rng.randrange(3) == 0) else rng.choice(["0", "p3", "p3", "p4", "p4", "p6"])
+    s.ops.append("burst %s %d %d KA %s w1 %s" % (mode, n, 1000, hx(b"/" + ch),
+                                                 ",".join(x for x in s.clients if x.startswith("c"))))
+    s.presence("w1", "KA", ch, status=True, changes=None)
+    s.dump()
+    return s.ops
+
+
 def gen(rng, tier):
     ops = []
+    for _ in range(budget(tier, 8, 120)):
+        ops += burst_session(rng)
     for _ in range(budget(tier, 40, 3000)):
         ops += session(rng)
     return ops
